@@ -304,8 +304,10 @@ func (x *Exec) applyContract(fc *FuncContract, key string, sig *types.Signature,
 					nv = x.structSet(nv, t.ty, j, x.structGet(cell, t.ty, j))
 				}
 			}
+			x.recordWrite(st, t.heap, t.key, nv, old, t.ty, e)
 			st.heaps[t.heap] = Store(h, t.key, nv)
 		} else {
+			x.recordWrite(st, t.heap, t.key, nil, nil, nil, e)
 			st.heaps[t.heap] = Store(h, t.key, cell)
 		}
 	}
